@@ -788,7 +788,9 @@ pub fn spec() -> impl Strategy<Value = Spec> {
 }
 
 /// strftime items of whole-second granularity plus literal text
-pub const DATE_ITEMS: [&str; 26] = [
+pub const DATE_ITEMS: [&str; 28] = [
+    // (format text that happens to spell a zone name is format text)
+    "utc", "local",
     "%Y", "%m", "%d", "%H", "%M", "%S", "%j", "%a", "%b", "%e", "%y", "%z", "%:z", "%Z", "%T", "%D", "%F", "%s", "%%", "-", ":", " ", "T",
     "/", "at", "(",
 ];
